@@ -46,6 +46,10 @@ CLAIMED = {
    "Structural conditions decided on every run: the query-term merger's SSA is evaluated under a rank oracle for all 360 (operator pair x weak ordering of the endpoint strings) cases and its result denotes exactly the intersection of the two value sets (exhaustive over a domain that is finite because the code only compares the strings); SQL generation is evaluated for every (key kind, operation, empty value) case and its placeholders match the arguments in number, column, comparison and order; separator characters equal the operation table's keys; the front end's quoting trigger covers the word splitter's special bytes and escapes in the right order; the printer's collect conditions, sorted emission, formats and model update; the flush path clears the coalescing state; the two key:value recognisers use the same predicates; in the legacy reader every write to the label map follows a copy made in the same call (path-sensitive in boolean flags) and never touches server-added labels.",
    "Does not decide SQL semantics inside the database, the HTTP round trip, or upload listing order/limits. Trusted: go/types, go/ssa, the set semantics of DESIGN Appendix A7.",
    "abstract interpretation of SSA with a rank oracle (exhaustive finite enumeration) + table agreement + path-sensitive must-precede dataflow"),
+ "C06": ("DESIGN.md §4 C06",
+   "Structural conditions decided on every run: the NOT/AND/OR combiners' complete decision tables over operand kinds (whole-true, whole-false, mask) x accumulator state are extracted from the SSA and equal DESIGN Appendix A2, with mask methods identified by their bitwise operator; the bit layout (words per mask, word/bit position in set and Test, padding in All/Any) is evaluated exhaustively for every n up to 4W+2 and every word against the definition; Match writes nothing reachable from its Result argument except the private key index (field-level write summaries; Apply is the positive control); every Op constant and every filter node type is handled; Apply's compaction keeps exactly what Test says; fixed lists are AND-composed with the caller's filter; each grammar production builds the documented node; extractor results (views into the Result) are never retained.",
+   "Does not decide key extraction values (C05), regexp semantics, or the equality `key's extracted value equals the literal` beyond the structure of the compiled closures. Trusted: go/types, go/ssa, table A2.",
+   "decision-table extraction + bounded exhaustive evaluation of integer expressions + field-level effect summaries + exhaustiveness/site rules"),
 }
 
 NOT_YET = "check not built yet in this round (planned in DESIGN.md); not claimed until its rules run clean on the unchanged tree"
